@@ -204,6 +204,8 @@ def run(ctx):
         ta = tree_with_links(ctx)
         # always one link to a directory that exists beside the destination
         ta["c"]["lnk"] = {"k": "l", "target": ctx.rng.choice(["../outside/sdir", "../outside", "@WS@/outside/sdir"]), "mtime": 10**18 + 40}
+        # ... and dangling links whose target's directory exists beside the destination: the other version has files there
+        ta["c"]["notes"] = {"k": "l", "target": ctx.rng.choice(["../outside/notyet", "@WS@/outside/sdir/notyet", "../outside/sdir/new file"]), "mtime": 10**18 + 41}
         tb = json.loads(json.dumps(ta))
         swapped = []
 
@@ -211,8 +213,8 @@ def run(ctx):
             for nm in sorted(node["c"]):
                 ch = node["c"][nm]
                 if ch["k"] == "l":
-                    if ctx.rng.random() < 0.7 or nm == "lnk":
-                        if nm != "lnk" and ("sentinel" in ch["target"] or "inner" in ch["target"] or ctx.rng.random() < 0.3):
+                    if ctx.rng.random() < 0.7 or nm in ("lnk", "notes"):
+                        if nm != "lnk" and ("sentinel" in ch["target"] or "inner" in ch["target"] or nm == "notes" or ctx.rng.random() < 0.3):
                             node["c"][nm] = {"k": "f", "data": gen.rand_bytes(ctx.rng, 5).hex(), "mode": 0o604, "mtime": 10**18 + 321}
                         else:
                             node["c"][nm] = {"k": "d", "mode": 0o701, "mtime": 10**18 + 322, "c": {
